@@ -164,6 +164,29 @@ func c05Shapes(c *chk.Ctx, rng interface{ Intn(int) int }) []*spec.Spec {
 		s.Run = spec.Run{Mode: "runto", Targets: []string{"sweep"}}
 		out = append(out, s)
 	}
+	// RunTo where a parameter source / a file source feeds one process inside and one outside the run set, with
+	// more items than buffer slots: the connection to the process that is not run must be cut, or the source blocks
+	for _, param := range []bool{true, false} {
+		name := "runtofilefan"
+		if param {
+			name = "runtoparamfan"
+		}
+		s := mk(name, 8)
+		if param {
+			s.Procs = append(s.Procs, &spec.Proc{Name: "ps", Kind: spec.KParamSource, Values: []string{"k1", "k2", "k3", "k4", "k5", "k6", "k7", "k8"}},
+				&spec.Proc{Name: "inside", Kind: spec.KCmd, Cmd: spec.BuildCmd("inside", nil, o1, []string{"k"}, nil, nil), Outs: []*spec.Out{{Port: "out", Pattern: "inside_{p:k}.out"}}},
+				&spec.Proc{Name: "outside", Kind: spec.KCmd, Cmd: spec.BuildCmd("outside", nil, o1, []string{"k"}, nil, nil), Outs: []*spec.Out{{Port: "out", Pattern: "outside_{p:k}.out"}}})
+			s.Conns = append(s.Conns, &spec.Conn{From: "ps.out", To: "inside.k", Param: true}, &spec.Conn{From: "ps.out", To: "outside.k", Param: true, Via: "to"})
+			s.Procs = s.Procs[1:] // no file source needed
+			s.Sources = map[string]string{}
+		} else {
+			s.Procs = append(s.Procs, &spec.Proc{Name: "inside", Kind: spec.KCmd, Cmd: spec.BuildCmd("inside", in, o1, nil, nil, nil)},
+				&spec.Proc{Name: "outside", Kind: spec.KCmd, Cmd: spec.BuildCmd("outside", in, o1, nil, nil, nil)})
+			s.Conns = append(s.Conns, &spec.Conn{From: "src.out", To: "inside.in"}, &spec.Conn{From: "src.out", To: "outside.in", Via: "to"})
+		}
+		s.Run = spec.Run{Mode: []string{"runto", "runtoprocs"}[len(out)%2], Targets: []string{"inside"}}
+		out = append(out, s)
+	}
 	// a component with its own temp directory (FileSplitter) between processes
 	{
 		s := mk("splitter", 2)
